@@ -3,7 +3,7 @@
  "name": "pop_debugfs_mknod",
  "props": ["C18"],
  "level": "P",
- "tier": "wip",
+ "tier": "quick",
  "harness": "h_do_mknod",
  "includes": ["debugfs", "lib/ss", "misc", "e2fsck"],
  "sources": ["debugfs/util.c"],
@@ -39,7 +39,7 @@
  "name": "pop_debugfs_link",
  "props": ["C18"],
  "level": "P",
- "tier": "wip",
+ "tier": "quick",
  "harness": "h_make_link",
  "includes": ["debugfs", "lib/ss", "misc", "e2fsck"],
  "sources": ["debugfs/util.c"],
